@@ -280,7 +280,11 @@ fn main() {
         "C16" => syntax::run_c16(&mut rep, &o.driver, o.workers, o.tier == "thorough", o.seed),
         "C19" => depth::run(&mut rep, o.tier == "thorough"),
         "C12" => sched::run(&mut rep, &o.driver, o.workers, o.tier == "thorough", o.seed),
-        "C13" => serval::run(&mut rep, &o.driver, o.workers, o.tier == "thorough", o.seed),
+        "C13" => {
+            serval::run(&mut rep, &o.driver, o.workers, o.tier == "thorough", o.seed);
+            // the serializer as RuleSet::evaluate(&T) uses it (evaluate_factors): the rules see the same image
+            serval::run_evaluate(&mut rep, &o.driver, o.workers, o.tier == "thorough", o.seed);
+        }
         "C15" => builder::run(&mut rep, &o.driver, o.workers, o.tier == "thorough", o.seed),
         "C17" => conv::run(&mut rep, &o.driver, o.workers, o.tier == "thorough", o.seed),
         "C05" => {
